@@ -241,14 +241,24 @@ def handle (j : Json) : Except String Json := do
     let inputs := strList (j.getObjValD "inputs")
     let skip := (j.getObjValD "skipParent") == Json.bool true
     let fm := (j.getObjValD "fileMatch") == Json.bool true
+    -- actions in order: [true, r] = SetRoot r, [false, p] = merge input p
+    let acts : List (Bool × String) :=
+      match j.getObjVal? "actions" with
+      | .ok (.arr as) => as.toList.filterMap fun a =>
+          match a.getObjVal? "root", a.getObjVal? "input" with
+          | .ok (.str r), _ => some (true, r)
+          | _, .ok (.str p) => some (false, p)
+          | _, _ => none
+      | _ => roots.map (fun r => (true, r)) ++ inputs.map (fun p => (false, p))
     let run : R (List Val × List Val) := do
       let mut cfg : RootCfg := { root := [], cwd := cwd }
-      for r in roots do
-        cfg ← setRoot fs cfg r
       let mut st := PState.empty
-      for inp in inputs do
-        let real ← if fm then (do let (r, _) ← fileMatch fs cwd inp; pure r) else pure (absPath cwd inp)
-        st ← if skip then mergeFileAlone fs cfg st real else mergeFileLayers fs cfg st real
+      for (isRoot, x) in acts do
+        if isRoot then
+          cfg ← setRoot fs cfg x
+        else
+          let real ← if fm then (do let (r, _) ← fileMatch fs cwd x; pure r) else pure (absPath cwd x)
+          st ← if skip then mergeFileAlone fs cfg st real else mergeFileLayers fs cfg st real
       let outs ← outputDocuments (st.docs.map (·.2)) env
       pure (st.docs.map (·.2), outs)
     match run with
